@@ -163,7 +163,7 @@ pub open spec fn ref_index_spec(pass: nat, slice: nat, index: nat, seg: nat, sam
 // ------------------------------------------------------------------------------------------------
 // RFC 9106 section 3.4.1: J1 || J2, and section 3.2 steps 5-6 for one lane (p = 1): filling the memory
 // ------------------------------------------------------------------------------------------------
-pub open spec fn zero_block() -> Seq<u64> {
+pub open spec fn zero_blk() -> Seq<u64> {
     Seq::new(128, |k: int| 0u64)
 }
 
@@ -194,7 +194,7 @@ pub open spec fn addr_input(pass: nat, lane: nat, slice: nat, mprime: nat, t: na
 
 /// the ctr-th 1024-byte address block G(ZERO(1024), G(ZERO(1024), Z || LE64(ctr) || ZERO(968))), ctr = 1, 2, ..
 pub open spec fn addr_block(pass: nat, lane: nat, slice: nat, mprime: nat, t: nat, y: nat, ctr: nat) -> Seq<u64> {
-    g_spec(zero_block(), g_spec(zero_block(), addr_input(pass, lane, slice, mprime, t, y, ctr)))
+    g_spec(zero_blk(), g_spec(zero_blk(), addr_input(pass, lane, slice, mprime, t, y, ctr)))
 }
 
 /// the 8-byte value X = J1 || J2 (J1 = low 32 bits) used for block `index` of the segment (Argon2i addressing)
@@ -239,6 +239,24 @@ pub open spec fn argon2_passes(mem: Seq<Seq<u64>>, seg: nat, t: nat, y: nat, n: 
     decreases n,
 {
     if n == 0 { mem } else { argon2_pass(argon2_passes(mem, seg, t, y, (n - 1) as nat), seg, t, y, (n - 1) as nat) }
+}
+
+pub proof fn lemma_div_mod_seg(slice: nat, seg: nat, index: nat)
+    requires
+        index < seg,
+    ensures
+        (slice * seg + index) / seg == slice,
+        (slice * seg + index) % seg == index,
+{
+    vstd::arithmetic::div_mod::lemma_fundamental_div_mod_converse((slice * seg + index) as int, seg as int, slice as int, index as int);
+    assert(slice * seg == seg * slice) by (nonlinear_arith);
+}
+
+pub proof fn lemma_low32(x: u64)
+    ensures
+        ((x & 0xFFFFFFFF) as u32) as nat == (x as nat) % 0x1_0000_0000,
+{
+    assert(((x & 0xFFFFFFFF) as u32) as u64 == x % 0x1_0000_0000) by (bit_vector);
 }
 
 pub proof fn lemma_steps_compose(mem: Seq<Seq<u64>>, seg: nat, t: nat, y: nat, pass: nat, lo: nat, mid: nat, hi: nat)
@@ -424,6 +442,29 @@ pub proof fn lemma_xor_seq_3(r: Seq<u64>, n: Seq<u64>, z: Seq<u64>)
         assert((x ^ y) ^ w == (w ^ x) ^ y) by (bit_vector);
     }
     assert(xor_seq(xor_seq(r, n), z) =~= xor_seq(xor_seq(z, r), n));
+}
+
+pub proof fn lemma_xor_zero(a: Seq<u64>, z: Seq<u64>)
+    requires
+        a.len() == z.len(),
+        forall|i: int| 0 <= i < z.len() ==> z[i] == 0,
+    ensures
+        xor_seq(a, z) == a,
+{
+    assert forall|i: int| 0 <= i < a.len() implies (a[i] ^ z[i]) == a[i] by {
+        let x = a[i];
+        assert(x ^ 0 == x) by (bit_vector);
+    }
+    assert(xor_seq(a, z) =~= a);
+}
+
+pub proof fn lemma_g_len(x: Seq<u64>, y: Seq<u64>)
+    ensures
+        g_spec(x, y).len() == x.len(),
+{
+    let r = xor_seq(x, y);
+    lemma_rows_len(r, 8);
+    lemma_cols_len(rows_spec(r, 8), 8);
 }
 
 pub proof fn lemma_gb_len(s: Seq<u64>, a: int, b: int, c: int, d: int)
